@@ -1,7 +1,7 @@
 """C10 — escape() output always parses back to the original identifier.
 
-Space: every code point (quick: a dense prefix + every class boundary + astral picks; thorough: all 0x110000) in
-seven contexts (alone, before a letter, before a digit, after '-', after '-' and before a hex letter, interior before a
+Space: every code point (quick: the whole BMP + astral picks, nine contexts below U+3000 and five above; thorough: all 0x110000 in
+nine contexts (alone, before a letter, before a digit, after '-', after '-' and before a hex letter, interior before a
 digit, interior before a space) plus all words of length <= 3 over a 14-character alphabet.
 Oracle: (1) escape does not raise; (2) an independent CSS-Syntax identifier consumer (vf/ref/ident.py) consumes the whole
 output and yields s' (s with NUL -> U+FFFD); (3) soupsieve's own parser yields s' for '#'+esc, '.'+esc, '[a='+esc+']';
@@ -15,12 +15,15 @@ from ..ref import ident as ref
 
 ID = 'C10'
 LEVEL = 'exploration'
-ALPHA = ['\x00', '\x01', '\x1f', ' ', '-', '0', '9', 'a', '_', '\x7f', '\x80', '\x9f', '\xa0', '\U0001F600', '\ud83d', '\ude0d', '\ufffd']
+ALPHA = ['\x00', '\x01', '\x1f', ' ', '-', '0', '9', 'a', '_', '\x7f', '\x80', '\x9f', '\xa0', '\U0001F600', '\ud83d', '\ude0d', '\ufffd', '\n', '\r']
 CSS_WS = set(' \t\n\r\f')
 
 
-def contexts(c):
-    return [c, c + 'a', c + '1', '-' + c, '-' + c + 'f', 'a' + c + '0', 'a' + c + ' b']
+def contexts(c, full=True):
+    core = [c, c + 'a', '-' + c, 'a' + c + '0', 'name' + c]
+    if not full:
+        return core            # quick tier above U+2FFF: the five core positions
+    return core + [c + '1', '-' + c + 'f', 'a' + c + ' b', '_x-1' + c]
 
 
 def quick_codepoints():
@@ -87,7 +90,7 @@ class Env:
 
     def __init__(self):
         import bs4
-        self.soup = bs4.BeautifulSoup('<div><p class="k"></p><p></p><p></p><p></p><i></i><b></b></div>', 'html.parser')
+        self.soup = bs4.BeautifulSoup('<div><p class="k"><u></u></p><p><u></u></p><p></p><p></p><i></i><b></b></div>', 'html.parser')
         self.ps = self.soup.find_all('p')
         self.i = self.soup.find('i')
         self.b = self.soup.find('b')      # carries the class as a plain STRING (as XML trees do)
@@ -137,7 +140,9 @@ def check_string(sv, env, s, res):
     target = env.ps[0]
     has_class = bool(s1) and not (set(s1) & CSS_WS)
     forms = [('#', '#' + esc, [target, env.i]), ('[a=]', '[a=' + esc + ']', [target, env.i]),
-             ('compound', 'p#' + esc + '.k', [target])]
+             ('compound', 'p#' + esc + '.k', [target]),
+             # whatever follows the escaped identifier (a descendant combinator, the i flag) must not be swallowed by it
+             ('#desc', '#' + esc + ' u', [target.u]), ('[a= i]', '[a=' + esc + ' i]', [target, env.i])]
     if has_class:
         forms.append(('.', '.' + esc, [target, env.b]))
         forms.append(('.string', 'b.' + esc + '.k2', [env.b]))
@@ -152,6 +157,10 @@ def check_string(sv, env, s, res):
                     parsed = sel.classes
                 elif form == 'compound':
                     parsed = (sel.tag.name, sel.ids, sel.classes)
+                elif form == '#desc':
+                    parsed = (sel.tag.name, sel.relation[0].ids if len(sel.relation) else None)
+                elif form == '[a= i]':
+                    parsed = (sel.attributes[0].attribute, bool(sel.attributes[0].pattern.flags & 2))
                 else:
                     parsed = (sel.attributes[0].attribute,)
                 got_sel = c.select(env.soup)
@@ -168,6 +177,10 @@ def check_string(sv, env, s, res):
             return sig_for('parse', form, s), f'{pat!r} parsed classes {parsed!r}, want {(s1,)!r}'
         if form == 'compound' and parsed != ('p', (s1,), ('k',)):
             return sig_for('parse', form, s), f'{pat!r} parsed {parsed!r}: escape output leaked into the surrounding selector'
+        if form == '#desc' and parsed != ('u', (s1,)):
+            return sig_for('parse', form, s), f'{pat!r} parsed {parsed!r}: the descendant combinator after the escaped identifier was lost'
+        if form == '[a= i]' and parsed != ('a', True):
+            return sig_for('parse', form, s), f'{pat!r} parsed {parsed!r}: the i flag after the escaped identifier was lost'
         if form == '[a=]' and parsed != ('a',):
             return sig_for('parse', form, s), f'{pat!r} parsed attribute {parsed!r}'
         if len(got_sel) != len(want) or any(a is not b for a, b in zip(got_sel, want)):
@@ -182,7 +195,7 @@ def run_shard(desc):
     res = shard.Result()
     env = Env()
     if desc[0] == 'cps':
-        strings = itertools.chain.from_iterable(contexts(chr(cp)) for cp in desc[1])
+        strings = itertools.chain.from_iterable(contexts(chr(cp), cp < 0x3000 or cp > 0xffff) for cp in desc[1])
     elif desc[0] == 'range':
         strings = itertools.chain.from_iterable(contexts(chr(cp)) for cp in range(desc[1], desc[2]))
     else:
